@@ -21,7 +21,7 @@ func init() {
 	vk.Register(&vk.Check{
 		ID:    "C07",
 		Level: "exploration",
-		Rule: "(a) exhaustive: every causally permitted interleaving of message deliveries of a deterministic 4-round protocol (broadcast+p2p, broadcast-only, p2p-only rounds) run by the real MultiHandler, enumerated by stateless DFS with a sleep-set reduction (deliveries to different recipients commute), for n=2 over all rounds (complete) and n=3 over rounds 2-3 and 2-4 (budgeted per sub-tree; exhaustive_subruns_completed / _incomplete say which sub-trees were enumerated completely), plus one duplicate at every later position of every n=2 interleaving; (b) sampled: real protocols under random / reverse / starve schedulers with duplication, stale replays and foreign-session injections, with party-keyed deterministic randomness: bit-identical results are required whenever a party's draw sequence equals that of the in-order run, correct and agreed results otherwise; " +
+		Rule: "(a) exhaustive: every causally permitted interleaving of message deliveries of a deterministic 4-round protocol (broadcast+p2p, broadcast-only, p2p-only rounds) run by the real MultiHandler, enumerated by stateless DFS with a sleep-set reduction (deliveries to different recipients commute), for n=2 over all rounds (complete) and n=3 over rounds 2-3 and 2-4 (budgeted per sub-tree; exhaustive_subruns_completed / _incomplete say which sub-trees were enumerated completely), plus one duplicate at every later position of every n=2 interleaving; (b) sampled: real protocols under random / reverse / starve schedulers with duplication, stale replays, foreign-session injections (messages and abort notices) and point-to-point messages overheard by a third party first (shared medium), with party-keyed deterministic randomness: bit-identical results are required whenever a party's draw sequence equals that of the in-order run, correct and agreed results otherwise; " +
 			"distinct non-trivial = distinct per-recipient delivery orders (exhaustive part) + distinct (protocol, scheduler, injection kinds, order hash) schedules (sampled part)",
 		MinDistinct:  100,
 		Assumptions:  []string{"sleep-set reduction assumes handlers of different parties share no state (each party owns its objects; messages are serialised)", "exhaustive: true only when every DFS sub-tree of the run completed"},
@@ -398,6 +398,27 @@ func c07Sampled(t *vk.T, proto string, i int, reps int) {
 			sc.judge = func(t *vk.T, outs []fx.Outcome, tag string) { judge(t, proto, outs, key.GroupKey, msg, tag, true) }
 			return sc
 		}
+	case "detstream":
+		// a two-party protocol whose leader sends two rounds back to back (TwoPartyHandler with early arrival)
+		ids := fx.IDs(r, i%4, 2)
+		seed := r.Bytes(4)
+		mk = func() *c07Scenario {
+			sc := &c07Scenario{name: proto, two: true, ids: ids, leaders: [2]bool{true, false}}
+			sc.start = func(id party.ID) protocol.StartFunc {
+				if id == ids[0] {
+					return detproto.StartStream(ids[0], ids[1], true, seed)
+				}
+				return detproto.StartStream(ids[1], ids[0], false, seed)
+			}
+			sc.canon = func(v interface{}) []byte {
+				if res, ok := v.(*detproto.Result); ok && res != nil {
+					return res.Digest
+				}
+				return nil
+			}
+			sc.judge = func(t *vk.T, outs []fx.Outcome, tag string) {}
+			return sc
+		}
 	case "doerner-keygen":
 		ids := fx.IDs(r, i%4, 2)
 		mk = func() *c07Scenario {
@@ -568,6 +589,23 @@ func c07Sampled(t *vk.T, proto string, i int, reps int) {
 						kinds["stale"] = true
 						t.Obs("injected_stale", 1)
 					}
+					// shared medium: a point-to-point message meant for one party is also shown to another, first
+					if !d.Bcast && d.To != "" && len(n.Parties) > 2 && r.Intn(100) < 25 {
+						var others []*sim.Party
+						for _, q := range n.Parties {
+							if q.ID != d.To && q.ID != d.From {
+								others = append(others, q)
+							}
+						}
+						if len(others) > 0 {
+							c := *d
+							c.Tag = "overheard"
+							c.Target = others[r.Intn(len(others))]
+							out = append([]*sim.Delivery{&c}, out...)
+							kinds["overheard"] = true
+							t.Obs("injected_overheard_p2p", 1)
+						}
+					}
 					if r.Intn(100) < foreignP && len(aborts) > 0 {
 						c := *aborts[r.Intn(len(aborts))]
 						c.Tag = "foreign-abort"
@@ -647,7 +685,7 @@ func c07Cases(env vk.Env) []vk.Case {
 		budget := int64(env.Pick(400, 20000))
 		cs = append(cs, vk.Case{ID: fmt.Sprintf("dfs/n3/r2-4/branch%d", b), Run: func(t *vk.T) { c07DFS(t, 3, 4, b, false, budget) }})
 	}
-	for _, p := range []string{"frost-keygen", "taproot-keygen", "frost-sign", "taproot-sign", "doerner-keygen", "doerner-sign"} {
+	for _, p := range []string{"frost-keygen", "taproot-keygen", "frost-sign", "taproot-sign", "doerner-keygen", "doerner-sign", "detstream"} {
 		for i := 0; i < env.Pick(6, 100); i++ {
 			p, i := p, i
 			cs = append(cs, vk.Case{ID: fmt.Sprintf("sampled/%s/%d", p, i), Run: func(t *vk.T) { c07Sampled(t, p, i, env.Pick(12, 30)) }})
